@@ -163,7 +163,8 @@ func runDialGreet(c DialGreet) vlib.Result {
 	var conns []*nbio.Conn
 	for i := 0; i < c.Dials; i++ {
 		cb := func(nc *nbio.Conn, err error) {
-			atomic.AddInt64(&callbacks, 1)
+			// counted last: the main goroutine reads the other counters once every callback has been counted
+			defer atomic.AddInt64(&callbacks, 1)
 			if err != nil {
 				atomic.AddInt64(&failedDials, 1)
 				return
